@@ -35,6 +35,19 @@ func (nd *node) addChild(name string, child *node) {
 	nd.children[name] = child
 }
 
+// absKey returns the key of the node named name in vfs.nodes : its absolute path,
+// or for the root directory of a volume the volume name (the absolute path without its trailing separator).
+func (vfs *OrefaFS) absKey(name string) string {
+	absPath, _ := vfs.Abs(name)
+
+	vnl := avfs.VolumeNameLen(vfs, absPath)
+	if len(absPath) == vnl+1 && avfs.IsPathSeparator(vfs, absPath[vnl]) {
+		return absPath[:vnl]
+	}
+
+	return absPath
+}
+
 // createDir creates a new directory.
 func (vfs *OrefaFS) createDir(parent *node, absPath, fileName string, perm fs.FileMode) *node {
 	mode := vfs.dirMode | (perm & avfs.FileModeMask &^ vfs.UMask())
